@@ -1,6 +1,7 @@
 package pmdiff
 
 import (
+	"math"
 	"testing"
 
 	"pgregory.net/rapid"
@@ -25,7 +26,7 @@ func seqs(alphabet []string, maxLen int) [][]string {
 	return out
 }
 
-var ctxSizes = []int{0, 1, 2, 3, 4, 50}
+var ctxSizes = []int{0, 1, 2, 3, 4, 50, math.MaxInt}
 
 func init() {
 	vk.Register("C13", "exh", runC13)
@@ -77,6 +78,34 @@ func TestC13Exhaustive(t *testing.T) {
 // genLines draws a pair of line lists that share long common runs with point
 // mutations, over a small alphabet so that lines repeat.
 func genPair(t *rapid.T, alphabet []string, maxLen int) ([]string, []string) {
+	if maxLen >= 40 && rapid.IntRange(0, 3).Draw(t, "nearIdentical") == 0 {
+		// the everyday case: two long, nearly identical files (1-3 point edits),
+		// with runs of identical lines around the edits
+		n := rapid.IntRange(30, maxLen+30).Draw(t, "niLen")
+		l := make([]string, 0, n)
+		for len(l) < n {
+			s := rapid.SampledFrom(alphabet).Draw(t, "niLine")
+			for k := rapid.IntRange(1, 4).Draw(t, "niRun"); k > 0 && len(l) < n; k-- {
+				l = append(l, s)
+			}
+		}
+		r := append([]string(nil), l...)
+		for e := rapid.IntRange(1, 3).Draw(t, "niEdits"); e > 0 && len(r) > 0; e-- {
+			i := rapid.IntRange(0, len(r)-1).Draw(t, "niPos")
+			switch rapid.IntRange(0, 2).Draw(t, "niKind") {
+			case 0:
+				r = append(r[:i], r[i+1:]...)
+			case 1:
+				r = append(r[:i], append([]string{rapid.SampledFrom(alphabet).Draw(t, "niIns")}, r[i:]...)...)
+			default:
+				r[i] = rapid.SampledFrom(alphabet).Draw(t, "niRep")
+			}
+		}
+		if rapid.Bool().Draw(t, "niSwap") {
+			l, r = r, l
+		}
+		return l, r
+	}
 	base := rapid.SliceOfN(rapid.SampledFrom(alphabet), 0, maxLen).Draw(t, "base")
 	mutate := func(label string) []string {
 		var out []string
@@ -103,8 +132,8 @@ func TestC13Rand(t *testing.T) {
 	h := vk.Start(t, "C13", "rand")
 	vk.Rapid(h, t, func(t *rapid.T) DiffCase {
 		alpha := rapid.SampledFrom([][]string{{"a", "b"}, {"a", "b", "c"}, {"a", "b", "c", "d", ""}}).Draw(t, "alpha")
-		l, r := genPair(t, alpha, 40)
-		return DiffCase{L: l, R: r, N: rapid.SampledFrom([]int{0, 1, 1, 2, 2, 3, 3, 5, 8, 50, -1}).Draw(t, "n")}
+		l, r := genPair(t, alpha, rapid.SampledFrom([]int{40, 40, 100}).Draw(t, "maxLen"))
+		return DiffCase{L: l, R: r, N: rapid.SampledFrom([]int{0, 1, 1, 2, 2, 3, 3, 5, 8, 50, -1, math.MaxInt, math.MaxInt - 2}).Draw(t, "n")}
 	}, runC13)
 }
 
